@@ -170,6 +170,34 @@ def task_levels(ctx, lname, boundaries, R=1.3):
   prove_close(ctx, 'log_sigma_integral.definition', logint, [T], sp5, config=conf)
 
 
+def task_long_axis(ctx, K):
+  """Level counts far beyond the usual ones (hundreds to thousands of layers; size-dependent strategy switches inside the cumulative-sum helpers
+  would only show here): cumulative sums and cumulative / total sigma integrals on an equidistant K-layer set, data symbolic (K unknowns)."""
+  from dinosaur import sigma_coordinates as sc, jax_numpy_utils as jnu, primitive_equations as pe
+  coords = sc.SigmaCoordinates.equidistant(K)
+  ctx.encoded(jnu.cumsum, jnu.reverse_cumsum, jnu._single_device_dot_cumsum, sc.cumulative_sigma_integral, sc.sigma_integral, pe.get_geopotential_diff)
+  dsig = np.full(K, 1.0 / K)
+  tri = np.tril(np.ones((K, K)))
+  for shape, axis in (((K,), 0), ((2, K), 1)):
+    c = dict(levels=f'equidistant-{K}', K=K, shape=list(shape), axis=axis)
+    sp = Space(bits=12)
+    x = PolyArr.variables(sp, 'x', shape)
+
+    def cumsum_ref(x):
+      xm = jnp.moveaxis(x, axis, -1)
+      pre = jnp.moveaxis(jnp.einsum('ij,...j->...i', tri, xm), -1, axis); suf = jnp.moveaxis(jnp.einsum('ji,...j->...i', tri, xm), -1, axis)
+      return ((jnu.cumsum(x, axis), jnu.reverse_cumsum(x, axis), jnu.cumsum(x, axis, method='jax'), jnu.reverse_cumsum(x, axis, method='jax'),
+               sc.cumulative_sigma_integral(x, coords, axis=axis), sc.cumulative_sigma_integral(x, coords, axis=axis, downward=False),
+               sc.sigma_integral(x, coords, axis=axis)),
+              (pre, suf, pre, suf, pre / K, suf / K, jnp.sum(x, axis=axis, keepdims=True) / K))
+    prove_close(ctx, 'long_axis.cumulative_sums_and_integrals_equal_prefix_sums', cumsum_ref, [x], sp, config=c, scale_floor=1.0)
+  # both geopotential strategies on the long column (the cumulative-sum one is chosen automatically under a vertical mesh)
+  sp = Space(bits=12)
+  t = PolyArr.variables(sp, 'T', (K, 1, 1))
+  prove_close(ctx, 'long_axis.geopotential_strategies_agree', lambda t: (pe.get_geopotential_diff(t, coords, 1.3, method='sparse'), pe.get_geopotential_diff(t, coords, 1.3, method='dense')),
+              [t], sp, config=dict(levels=f'equidistant-{K}', K=K), scale_floor=1.0)
+
+
 def task_integer_data(ctx, lname, boundaries):
   """The same calculus on integer-valued column data STORED as int64 / int32 (level indices, counts, categorical masks): integrals,
   cumulative sums (both strategies), centred differences and centred advection of an integer field equal the documented formulas
@@ -331,6 +359,8 @@ def make_tasks(tier, seed):
   for K in (1, 2, 3) if tier == 'quick' else (1, 2, 3, 4):
     tasks.append(dict(name=f'validation-K{K}', fn='task_validation', kw=dict(K=K)))
   tasks.append(dict(name='validation-nonfinite', fn='task_validation_nonfinite', kw={}))
+  for K in (130, 600) if tier == 'quick' else (130, 600, 1030, 2050):
+    tasks.append(dict(name=f'long-axis-{K}', fn='task_long_axis', kw=dict(K=K)))
   for n in ['dy3', 'un4'] + (['eq5', 'dy5'] if tier != 'quick' else []):
     tasks.append(dict(name=f'integer-data-{n}', fn='task_integer_data', kw=dict(lname=n, boundaries=LS[n].tolist())))
   return tasks
